@@ -3,6 +3,7 @@ import PyTrie.Model.HexTrav
 import PyTrie.Model.HexDb
 import PyTrie.Model.Iter
 import PyTrie.Model.HexRaw
+import PyTrie.Model.HexRead
 /-! Line-protocol front end for the hexary-trie model (commands `hx.*`). One reply line per
     command. Byte strings are lower-case hex (`-` = empty), nibble paths one hex digit per nibble
     (`-` = empty), the batch trie is addressed as `b`, other tries by number. -/
@@ -259,6 +260,33 @@ def step (st : St) (cmd : String) (args : List String) : St × String :=
           | .error (.missing h) => s!"exn missing {toHex h}"
           | .error .invalid => "exn invalid"
           | .error .fuel => "exn fuel")
+    | _, _ => bad
+  -- raw level of the read path: traverse / get_proof over raw nodes read from the world's database
+  | "travd", [r, p] =>
+    match ofHex r, parsePath p with
+    | some r, some p =>
+      let fmtD (a : HexD.AnnD) : String :=
+        s!"{kindStr a.kind} subs={joinOr (a.subs.map pathStr) ","} value={toHex a.value} suffix={pathStr a.suffix} raw={toHex (rlp a.raw)}"
+      (st, match HexD.fetch keccak w.base (.str r) [] with
+        | .error (.missing h used) => s!"exn MissingTraversalNode {toHex h} {pathStr used}"
+        | .error _ => "exn Invalid"
+        | .ok rootNode =>
+          match HexD.traverseOutD keccak w.base (w.base.length + p.length + 2) rootNode p with
+          | .ok (.node a) => s!"node {fmtD a}"
+          | .ok (.partialPath tr a tail sim) =>
+            s!"partial traversed={pathStr tr} tail={pathStr tail} node=[{fmtD a}] sim=[{match sim with | some x => fmtD x | none => "bug"}]"
+          | .error (.missing h used) => s!"exn MissingTraversalNode {toHex h} {pathStr used}"
+          | .error _ => "exn Invalid")
+    | _, _ => bad
+  | "proofd", [r, k] =>
+    match ofHex r, ofHex k with
+    | some r, some k =>
+      (st, match HexD.fetch keccak w.base (.str r) [] with
+        | .error _ => "exn Missing"
+        | .ok rootNode =>
+          match HexD.getProofD keccak w.base (w.base.length + 2 * k.length + 2) rootNode (nibs k) with
+          | .ok l => joinOr (l.map fun n => toHex (rlp n)) ","
+          | .error _ => "exn Missing")
     | _, _ => bad
   | "rlpdec", [b] =>
     match ofHex b with
